@@ -567,9 +567,12 @@ def lle_reuse_configs(tier):
     return [{'name': f'{pkg}/top={top}', 'pkg': pkg, 'top': top} for pkg, top in fam]
 
 
+# two liquids "of different composition": every K_i = x_L,i/x_l,i differs from 1 by more than this margin (the closed-form
+# Rachford-Rice solution divides by (K1-1)(K2-1): nearer to 1 the float cross-check of a path is dominated by rounding)
+K_MARGIN = 1e-3
 REUSE_FUNCS = LLE_FUNCS + ['thermosteam.equilibrium.binary_phase_fraction:phase_fraction',
                            'thermosteam.equilibrium.binary_phase_fraction:compute_phase_fraction_2N']
-REUSE_REQ = ('requires: two liquids of different composition (every partition coefficient differs from 1 by more than 1e-6), '
+REUSE_REQ = ('requires: two liquids of different composition (every partition coefficient differs from 1 by more than 1e-3), '
              'every mole fraction >= 1e-16 (no clamping of the stored K)')
 
 
@@ -596,7 +599,7 @@ def lle_reuse(w, cfg):
         xa = w.real('xa', lo=1e-16, hi=1. - 1e-16)
         xb = w.real('xb', lo=1e-16, hi=1. - 1e-16)
         for p_, q_ in ((xa, xb), (1. - xa, 1. - xb)):
-            w.assume(w.Or(w.ge(p_, (1 + 1e-6) * q_), w.le(p_, (1 - 1e-6) * q_)))
+            w.assume(w.Or(w.ge(p_, (1 + K_MARGIN) * q_), w.le(p_, (1 - K_MARGIN) * q_)))
         a = [beta * xa, beta * (1. - xa)]
         z0 = a[0] + (1. - beta) * xb
         row = dict(W.rows_of(s))['l']
@@ -654,7 +657,7 @@ def lle_reuse_step(w, cfg):
         xl = [xl0, 1. - xl0]
         xL = [xL0, 1. - xL0]
         for p_, q_ in zip(xL, xl):
-            w.assume(w.Or(w.ge(p_, (1 + 1e-6) * q_), w.le(p_, (1 - 1e-6) * q_)))
+            w.assume(w.Or(w.ge(p_, (1 + K_MARGIN) * q_), w.le(p_, (1 - K_MARGIN) * q_)))
         if top is not None:
             k = IDs.index(top)
             # the remembered labels obey the rule for this top chemical, strictly (a tie leaves the labelling open)
